@@ -787,3 +787,26 @@ theorem detect_partial_deferring (cfg : Cfg) (a : Schema) (hwf : WF a) (hok : Sc
   exact detect_partial cfg a hwf hok m h
 
 end C07
+
+namespace C07
+open Model.Diff Spec.Diff
+
+/-- synonyms are the same type: what a synonym group (or an equal first word) joins, with
+compatible further words / arguments, is never reported as a type change -/
+theorem type_synonyms_quiet (syn : List (List String)) (ext : List (Option String × Option String))
+    (i m : G.Params) (h : mustMatch syn ext i m = true) : G.compareType syn ext i m = false := by
+  simp only [mustMatch, Bool.and_eq_true, Bool.or_eq_true] at h
+  obtain ⟨hn, ha⟩ := h
+  have hm : G.typesMatch syn i m = true := by
+    simp only [G.typesMatch, Bool.or_eq_true, List.any_eq_true, Bool.and_eq_true]
+    rcases hn with (h0 | h1) | h2
+    · exact Or.inl h0
+    · simp only [List.any_eq_true, Bool.and_eq_true] at h1
+      obtain ⟨b, hb, e⟩ := h1
+      exact Or.inr ⟨b, hb, Or.inl e⟩
+    · simp only [List.any_eq_true, Bool.and_eq_true] at h2
+      obtain ⟨b, hb, e⟩ := h2
+      exact Or.inr ⟨b, hb, Or.inr e⟩
+  simp [G.compareType, hm, ha]
+
+end C07
